@@ -1459,8 +1459,8 @@ namespace jsonpointer {
             auto jt = it->first.tokens().begin() + offset;
             const auto& s = *jt;
             std::size_t n;
-            auto r = jsoncons::dec_to_integer(s.data(), s.size(), n);
-            if (r.ec != std::errc{})
+            // only RFC 6901 array indices (no leading zeros) can be element positions: "00" and "0" are different member names
+            if (!jsoncons::jsonpointer::detail::to_array_index(s.data(), s.size(), n))
             {
                 return unflatten_object<Json,Iterator>(first, last, offset, unflatten_options{});
             }
